@@ -11,7 +11,8 @@
 // collector); the observation is the status class, the rejection reason and the API key of every
 // event that left.
 //
-// case header: mode=<m> aolk=<0|1> sk=<enc> rk=<enc,..|-> rkid=<enc,..|-> auth=<enckey>:<encid>,..|-
+// case header: mode=<m> aolk=<0|1> sk=<enc> rk=<enc,..|-> rkid=<enc,..|-> auth=<enckey>:<encid>,..|- grid=<n>
+//              (grid: 1-based index of the configuration in the complete enumeration, 0 for a random case)
 // op:          req ep=<endpoint> hdr=<long|short|none> key=<enc>
 // ext:         legacy <enckey> = <0|1>      (config.IsLegacyAPIKey, an external function for the model)
 //              authid <enckey> = <encid>    (what the stubbed /1/auth lookup answers for the key)
@@ -352,7 +353,7 @@ func (comp) Gen(r *kit.Rng, maxLen int, tier string) kit.Case {
 			}
 			ops = append(ops, fmt.Sprintf("req ep=%s hdr=none key=%%", ep))
 		}
-		return kit.Case{Header: header(mode, aolk, sk, rk, rkid, auth, 1), Ops: ops}
+		return kit.Case{Header: header(mode, aolk, sk, rk, rkid, auth, idx+1), Ops: ops}
 	}
 	// beyond the grid: random configurations with longer lists, odd list members and near-miss keys
 	mode := modes[r.Intn(len(modes))]
